@@ -4,7 +4,7 @@ usage: tools/import_seed.py C05 "<needs1>" "<needs2>"  (reads /tmp/seed/C05/patc
 import json, os, shutil, sys
 VERIF = os.path.dirname(os.path.dirname(os.path.abspath(__file__)))
 pid = sys.argv[1]
-src = "/tmp/seed/" + pid
+src = os.environ.get("SEED_SRC", "/tmp/seed") + "/" + pid
 for k in (1, 2):
     p = os.path.join(src, "patch%d.diff" % k)
     if not os.path.exists(p):
